@@ -2801,6 +2801,24 @@ void mmd_engine_update_metavalue_for_key(mmd_engine * e, const char * key, const
 			meta_end++;
 		}
 
+		// A block fenced with `---` lines (YAML style) ends with its closing fence;
+		// the new key belongs before that line, not after it
+		size_t last_stop = meta_end;
+
+		while (last_stop > 0 && char_is_line_ending(e->dstr->str[last_stop - 1])) {
+			last_stop--;
+		}
+
+		size_t last_start = last_stop;
+
+		while (last_start > 0 && !char_is_line_ending(e->dstr->str[last_start - 1])) {
+			last_start--;
+		}
+
+		if ((last_start > 0) && (e->dstr->str[last_stop - 1] == '-') && scan_setext(&(e->dstr->str[last_start]))) {
+			meta_end = last_start;
+		}
+
 		d_string_insert(e->dstr, meta_end, temp->str);
 	} else {
 		// There is no metadata, so prepend before document
